@@ -44,7 +44,7 @@ func baseName(n string) string {
 
 // TestLayerReuse: response layers from the shared case generator.
 func TestLayerReuse(t *testing.T) {
-	ev.Check(t, "TestLayerReuse", ev.Pick(20000, 1000000), func(t *rapid.T) {
+	ev.Check(t, "TestLayerReuse", ev.PickN(20000, 1000000), func(t *rapid.T) {
 		a := hx.GenResponseCase(t)
 		// draw B until it is the same layer type (bounded)
 		var b hx.DCase
@@ -103,7 +103,7 @@ func TestWrapperReuse(t *testing.T) {
 			Cmd: rapid.Byte().Draw(t, "cmd"), CC: rapid.Byte().Draw(t, "cc"), Data: rapid.SliceOfN(rapid.Byte(), 3, 20).Draw(t, "data")}
 		return m.Bytes()
 	}
-	ev.Check(t, "TestWrapperReuse", ev.Pick(8000, 400000), func(t *rapid.T) {
+	ev.Check(t, "TestWrapperReuse", ev.PickN(8000, 400000), func(t *rapid.T) {
 		kind := rapid.IntRange(0, 2).Draw(t, "kind")
 		var a, b []byte
 		var mk func() gopacket.DecodingLayer
@@ -222,7 +222,7 @@ func prepare(e hx.Entry, b *simbmc.BMC, draw int) *hx.Call {
 // TestCommandValueReuse: one command value used for two calls whose responses
 // differ in optional tails; the second result must match a fresh value's.
 func TestCommandValueReuse(t *testing.T) {
-	ev.Check(t, "TestCommandValueReuse", ev.Pick(3000, 150000), func(t *rapid.T) {
+	ev.Check(t, "TestCommandValueReuse", ev.PickN(3000, 150000), func(t *rapid.T) {
 		w := hx.NewWorld(rapid.Uint64().Draw(t, "seed"), true)
 		kind := rapid.IntRange(0, 3).Draw(t, "kind")
 		var reused, fresh ipmi.Command
